@@ -14,6 +14,9 @@ for cid in sys.argv[1:]:
         st={}
         for o in r['obligations']: st[o['status']]=st.get(o['status'],0)+1
         print(c, 'paths',r['paths'], st, 'gaps',len(r['gaps']), (r['error'] or '')[-600:], '%.1fs'%(time.time()-t), r.get('stats'), flush=True)
+        shown=0
         for o in r['obligations']:
-            if o['status']!='proved': print('   ',o['name'],'path',o['path'],o['status'],o['backend'],o['detail'][:300],o['exception'], o['model'], '\n      goal:', o['goal'][:200], '\n      pc:', o['pc'][-3:])
+            if o['status']!='proved' and shown < int(os.environ.get("SHOW","3")):
+                shown+=1
+                print('   ',o['name'],'path',o['path'],o['status'],o['backend'],o['detail'][:300],o['exception'], str(o['model'])[:300], '\n      goal:', o['goal'][:160], '\n      pc:', [x[:100] for x in o['pc'][-3:]])
         for g in r['gaps'][:3]: print('   GAP',g)
